@@ -138,3 +138,28 @@ package reconciledloader
 //@   modifies pt.lastUnfollowedRemotePath
 //@   ensures (action == graphsync.LinkActionPresent || action == graphsync.LinkActionDuplicateNotSent) ==> pt.lastUnfollowedRemotePath == old(pt.lastUnfollowedRemotePath)
 //@   ensures !(action == graphsync.LinkActionPresent || action == graphsync.LinkActionDuplicateNotSent) ==> pt.lastUnfollowedRemotePath == currentPath
+
+//@ -- the loader's representation invariant (sequential view: the loading goroutine; what the ingesting goroutine may
+//@ -- do while this one waits is the contract of Cond.Wait below, and every function that goroutine runs - IngestResponse,
+//@ -- SetRemoteOnline, Cleanup - is verified to keep the same invariant)
+//@ pred attemptOK(rl *ReconciledLoader) := rl.mostRecentLoadAttempt.link == nil || isCidLink(rl.mostRecentLoadAttempt.link)
+//@ pred linv(rl *ReconciledLoader) := wf(rl) && allGood() && qinv(rl.remoteQueue) && recOK() && isT(rl.traversalRecord) && attemptOK(rl)
+//@    && (rl.remoteQueue.head != nil ==> rl.remoteQueue.tail != nil && isalloc(rl.remoteQueue.head))
+//@    && (rl.verifier != nil ==> stackOK(rl.verifier) && atLink(rl.verifier))
+
+//@ func std:sync.Cond.Wait
+//@   assumed
+//@   modifies alloc, remoteQueue.head, remoteQueue.tail, remoteQueue.dataSize, remoteQueue.lastConsumed, remotedLinkedItem.next, remotedLinkedItem.remoteItem, ReconciledLoader.open, ReconciledLoader.verifier, traversalrecord.Verifier.stack
+//@   ensures forall r *ReconciledLoader :: old(linv(r)) ==> linv(r)
+
+//@ -- C01 (c): when waitRemote reports success no replay step failed; C02: it answers "online with an item to read" only
+//@ -- after the replay of the local history is complete
+//@ func ReconciledLoader.waitRemote
+//@   requires linv(rl)
+//@   modifies alloc, vfail, remoteQueue.head, remoteQueue.tail, remoteQueue.dataSize, remoteQueue.lastConsumed, remotedLinkedItem.next, remotedLinkedItem.remoteItem, ReconciledLoader.open, ReconciledLoader.verifier, traversalrecord.Verifier.stack, pathTracker.lastUnfollowedRemotePath
+//@   loop 1 invariant linv(rl) && vfail == old(vfail)
+//@   ensures linv(rl)
+//@   ensures result1 == nil ==> vfail == old(vfail)
+//@   ensures result1 != nil ==> result0
+//@   ensures result0 && result1 == nil ==> rl.remoteQueue.head != nil && rl.verifier == nil
+//@   ensures !result0 ==> rl.remoteQueue.head == nil
